@@ -492,7 +492,7 @@ func main() {
 	}
 
 	// ---- write shards
-	shardSizes := map[string]int{"ccases": 20, "acases": 20, "ncases": 100}
+	shardSizes := map[string]int{"ccases": 24, "acases": 24, "ncases": 100}
 	shardIndex := map[string][3]any{}
 	type group struct {
 		kind, typ, m, p string
@@ -536,20 +536,30 @@ func main() {
 			f.Write(append(b, '\n'))
 		}
 		f.Close()
-		shardSize := shardSizes[k]
-		for i := 0; i*shardSize < len(gr.cases); i++ {
-			hi := (i + 1) * shardSize
-			if hi > len(gr.cases) {
-				hi = len(gr.cases)
+		// a shard ends after shardSizes[k] cases or ~48 KB of literals, whichever comes first
+		// (coqc's elaboration of one very large definition is slow and can exhaust its stack)
+		start, bytes, n := 0, 0, 0
+		flush := func(end int) {
+			if end == start {
+				return
 			}
-			name := fmt.Sprintf("%s_%d.v", k, i)
-			shardIndex[name] = [3]any{k, i * shardSize, hi - i*shardSize}
-			if err := writeShard(*out, name, gr.typ, gr.m, gr.p, gr.cases[i*shardSize:hi]); err != nil {
+			name := fmt.Sprintf("%s_%d.v", k, n)
+			shardIndex[name] = [3]any{k, start, end - start}
+			if err := writeShard(*out, name, gr.typ, gr.m, gr.p, gr.cases[start:end]); err != nil {
 				fmt.Fprintln(os.Stderr, err)
 				os.Exit(2)
 			}
 			shards = append(shards, name)
+			start, bytes = end, 0
+			n++
 		}
+		for i, c := range gr.cases {
+			if i > start && (i-start >= shardSizes[k] || bytes+len(c) > 48*1024) {
+				flush(i)
+			}
+			bytes += len(c)
+		}
+		flush(len(gr.cases))
 	}
 	all := append(append(append([]outcome(nil), outs...), realGrace...), graceOuts...)
 	var totalBytes int64
